@@ -86,9 +86,14 @@ pub fn run(seed: u64, thorough: bool, out_dir: &std::path::Path) -> Out {
     let ft = ckb_systemtime::faketime();
     let n_ctx = hx_common::shard_share(if thorough { 120 } else { 16 });
     let mut case_no = 0usize;
+    // cycles of one always-success spend, measured on the first accepted block of the run; every other
+    // context then runs with max_block_cycles = exactly the cycles of its base candidate
+    let mut tx_cycles: Option<u64> = None;
     for ci in 0..n_ctx {
         let window = *rng.pick(&[(2u64, 4u64), (2, 5), (1, 3), (2, 10)]);
-        let cfg = ChainCfg { window, genesis_epoch_length: 1000, fund_txs: 8, max_proposals: Some(6), ..Default::default() };
+        let n_commit: u64 = { let (wc, wf) = window; if (wc + wf) / 2 != wc && (wc + wf) / 2 != wf { 3 } else { 2 } };
+        let cycle_limit: Option<u64> = match tx_cycles { Some(c) if ci % 2 == 1 => Some(c * n_commit), _ => None };
+        let cfg = ChainCfg { window, genesis_epoch_length: 1000, fund_txs: 8, max_proposals: Some(6), max_block_cycles: cycle_limit, ..Default::default() };
         let (consensus, funds) = make_consensus(&cfg);
         let node = Node::temp(&consensus);
         let mut ctx = Ctx { consensus: consensus.clone(), node, funds: funds.clone(), window, pid: HashMap::new(), bid: HashMap::new() };
@@ -104,12 +109,13 @@ pub fn run(seed: u64, thorough: bool, out_dir: &std::path::Path) -> Out {
         let t_old = mk_tx(3, 4);       // proposed at distance w_far + 1 (too old)
         let t_never = mk_tx(4, 5);     // never proposed
         let t_mid = mk_tx(5, 6);       // proposed in the middle of the window
+        let t_extra = mk_tx(6, 7);     // proposed at distance w_far: one transaction more than the base candidate commits
         let mut failed = false;
         ft.set_faketime(GENESIS_TS + 10_000_000);
         for hgt in 1..=len {
             let d = cand - hgt;
             let mut proposals = vec![];
-            if d == wf { proposals.push(t_far.proposal_short_id()); }
+            if d == wf { proposals.push(t_far.proposal_short_id()); proposals.push(t_extra.proposal_short_id()); }
             if d == wc { proposals.push(t_close.proposal_short_id()); }
             if wc >= 2 && d == wc - 1 { proposals.push(t_recent.proposal_short_id()); }
             if d == wf + 1 { proposals.push(t_old.proposal_short_id()); }
@@ -215,6 +221,19 @@ pub fn run(seed: u64, thorough: bool, out_dir: &std::path::Path) -> Out {
         if let Some(b) = try_commit(vec![t_old.clone()]) { vars.push(Variant { name: "window: commits at distance w_far + 1", block: b, expect_accept: false, group: Group::None }); }
         if let Some(b) = try_commit(vec![t_far.clone()]) { vars.push(Variant { name: "valid: commits only at distance w_far", block: b, expect_accept: true, group: Group::None }); }
         if let Some(b) = try_commit(vec![t_close.clone()]) { vars.push(Variant { name: "valid: commits only at distance w_close", block: b, expect_accept: true, group: Group::None }); }
+        // --- the block cycle limit: the base candidate is exactly at it in every other context
+        {
+            let mut more = commit.clone(); more.push(t_extra.clone());
+            if cycle_limit.is_some() {
+                if let Some(b) = try_commit(more.clone()) { vars.push(Variant { name: "cycles: one committed transaction more than max_block_cycles allows", block: b, expect_accept: false, group: Group::Txs }); }
+                // the same transactions again in a sibling: by now they are in the verification cache
+                if let Some(b) = std::panic::catch_unwind(std::panic::AssertUnwindSafe(|| build_block(&ctx.node, &BlockPlan { txs: more.clone(), ts_delta: 51, nonce: 2, ..base_plan.clone() }))).ok() {
+                    vars.push(Variant { name: "cycles: over max_block_cycles, transactions already in the verification cache", block: b, expect_accept: false, group: Group::Txs });
+                }
+            } else if let Some(b) = try_commit(more) {
+                vars.push(Variant { name: "valid: commits one transaction more (no cycle limit in this context)", block: b, expect_accept: true, group: Group::None });
+            }
+        }
         // --- DAO, extension, transactions
         {
             let mut dao = base.dao().raw_data().to_vec(); dao[24] ^= 1;
@@ -254,7 +273,7 @@ pub fn run(seed: u64, thorough: bool, out_dir: &std::path::Path) -> Out {
             out.evaluations += 1;
             out.distinct.insert(format!("{ci}/{}", v.name));
             *out.stats.entry(if v.expect_accept { "valid_variants".to_string() } else { "single_rule_mutants".to_string() }).or_default() += 1;
-            let jcase = json!({"context": {"window": [wc, wf], "tip_height": len, "genesis_epoch_length": cfg.genesis_epoch_length}, "variant": v.name});
+            let jcase = json!({"context": {"window": [wc, wf], "tip_height": len, "genesis_epoch_length": cfg.genesis_epoch_length, "max_block_cycles": cycle_limit}, "variant": v.name});
             let (accepted, why) = match r {
                 Err(_) => { out.viol.push(json!({"what": "the node panicked on an offered block", "detail": jcase})); failed = true; break; }
                 Ok(x) => x,
@@ -279,6 +298,9 @@ pub fn run(seed: u64, thorough: bool, out_dir: &std::path::Path) -> Out {
             descs[sh].entry("rules".into()).or_default().push(json!({"case": jcase, "accepted": accepted, "reason": why}));
             case_no += 1;
             if accepted {
+                if tx_cycles.is_none() {
+                    tx_cycles = ctx.node.shared.store().get_block_ext(&block.hash()).and_then(|e| e.cycles).and_then(|c| c.into_iter().max()).filter(|c| *c > 0);
+                }
                 // back to the context
                 if let Err(e) = ctx.node.chain().truncate(before_tip.clone()) { out.viol.push(json!({"what": format!("truncate failed: {e}"), "detail": jcase})); }
             }
